@@ -285,7 +285,7 @@ mod verif_chain_kb {
             }
         });
     }}
-    //@harness chain_kb_trim_s1_o1 Kb fn=Chain::trim bound="self and other at most 1 block, bounds and probe symbolic" timeout=900
+    //@harness chain_kb_trim_s1_o1 Kb fn=Chain::trim bound="self and other at most 1 block, bounds and probe symbolic" timeout=900 thorough
     trim_body!(chain_kb_trim_s1_o1, 3, no_realloc, 1, 1);
     //@harness chain_kb_trim_s2_o1 Kb fn=Chain::trim bound="self at most 2 blocks, other at most 1 block, bounds and probe symbolic" timeout=1800 thorough
     trim_body!(chain_kb_trim_s2_o1, 4, realloc, 2, 1);
@@ -303,7 +303,7 @@ mod verif_chain_kb {
             assert!(has(&r, x) == (has(&s, x) && !has(&o, x)), "x in difference <==> x in self && x not in other");
         });
     }}
-    //@harness chain_kb_difference_s1_o1 Kb fn=Chain::difference bound="self and other at most 1 block, bounds and probe symbolic" timeout=900
+    //@harness chain_kb_difference_s1_o1 Kb fn=Chain::difference bound="self and other at most 1 block, bounds and probe symbolic" timeout=900 thorough
     difference_body!(chain_kb_difference_s1_o1, 3, 1, 1);
     //@harness chain_kb_difference_n2 Kb fn=Chain::difference bound="self and other at most 2 blocks, bounds and probe symbolic" timeout=1800 thorough
     difference_body!(chain_kb_difference_n2, 5, 2, 2);
